@@ -294,22 +294,32 @@ Definition apply_tick (d : db) : sres :=
   if (0 <? d_deadline d1) && (d_deadline d1 <? d_tick d1) then SPanic (set_failed d1 true)
   else SOk d1 (d_tick d1).
 
-Definition apply_report (d : db) (r0 : report) : sres :=
-  let tick := d_tick d in
-  let r := mkReport (rp_addr r0) (rp_infos r0) (rp_shard_ids r0) tick (rp_plog_incl r0) (rp_plog r0) (rp_region r0) (rp_rpc r0) in
+(* the report as stored: LastTick stamped with the DB's logical time *)
+Definition stamp (d : db) (r0 : report) : report :=
+  mkReport (rp_addr r0) (rp_infos r0) (rp_shard_ids r0) (d_tick d) (rp_plog_incl r0) (rp_plog r0) (rp_region r0) (rp_rpc r0).
+
+(* mailbox move: Requests[a] -> Outgoing[a] *)
+Definition pickup (d : db) (a : N) : db :=
+  match d_requests d !! a with
+  | Some qs => set_outgoing (set_requests d (delete a (d_requests d))) (<[a := qs]> (d_outgoing d))
+  | None => d
+  end.
+Definition pickup_count (d : db) (a : N) : N :=
+  match d_requests d !! a with Some qs => N.of_nat (length qs) | None => 0 end.
+
+(* state after a report whose view update succeeded with (view', kill') *)
+Definition report_result (d : db) (r : report) (view' : gmap N shard) (kill' : list kill_entry) : db :=
   let a := rp_addr r in
   let d1 := set_info (set_outgoing d (delete a (d_outgoing d))) (<[a := r]> (d_info d)) in
-  match view_update (d_view d1) (d_kill d1) r tick with
+  let d2 := set_kill (set_view d1 view') kill' in
+  let d3 := set_hosts d2 (sync_shard_info (host_update (d_hosts d2) r (d_tick d)) view') in
+  on_updated_shard_info (pickup d3 a).
+
+Definition apply_report (d : db) (r0 : report) : sres :=
+  let r := stamp d r0 in
+  match view_update (d_view d) (d_kill d) r (d_tick d) with
   | None => SDead
-  | Some (view', kill') =>
-    let d2 := set_kill (set_view d1 view') kill' in
-    let d3 := set_hosts d2 (sync_shard_info (host_update (d_hosts d2) r tick) view') in
-    let '(d4, count) :=
-      match d_requests d3 !! a with
-      | Some qs => (set_outgoing (set_requests d3 (delete a (d_requests d3))) (<[a := qs]> (d_outgoing d3)), N.of_nat (length qs))
-      | None => (d3, 0)
-      end in
-    SOk (on_updated_shard_info d4) count
+  | Some (view', kill') => SOk (report_result d r view' kill') (pickup_count d (rp_addr r))
   end.
 
 Definition apply_requests (d : db) (qs : list request) : sres :=
